@@ -331,15 +331,15 @@ fn exclusion(la: &LA, at: &str, modes: &[&str]) -> Option<&'static str> {
     None
 }
 
-fn components(members: &[&LA], own_index: &[usize]) -> (usize, f64) {
+fn components(members: &[&LA]) -> (usize, f64) {
     let n = members.len();
     let mut parent: Vec<usize> = (0..n).collect();
     fn find(p: &mut Vec<usize>, mut x: usize) -> usize { while p[x] != x { p[x] = p[p[x]]; x = p[x]; } x }
     let mut owner: BTreeMap<String, usize> = BTreeMap::new();
     for (i, la) in members.iter().enumerate() {
-        // An Assertion created without `asserted_by` is stored with the endpoint key of JSON null
-        // (a non-empty constant), so every unattributed claim carries the same actor key.
-        let _ = own_index;
+        // An Assertion created without `asserted_by` is stored with the endpoint key of JSON null (a
+        // non-empty constant), so every unattributed claim carries the same actor key: the engine groups
+        // them as one voice, and so does this reading.
         let mut keys = vec![match la.actor { Some(a) => format!("actor:{a}"), None => "actor:null".to_string() }];
         keys.extend(la.evid.iter().map(|e| format!("evidence:{e}")));
         for k in keys {
@@ -381,8 +381,9 @@ fn oracle(sc: &Scenario, v: &Variant, at: &str) -> Value {
             opposing.push(i); o_side.push(la); o_idx.push(i);
         }
     }
-    let (sg, s) = components(&s_side, &s_idx);
-    let (og, o) = components(&o_side, &o_idx);
+    let _ = (&s_idx, &o_idx);
+    let (sg, s) = components(&s_side);
+    let (og, o) = components(&o_side);
     let (acc, mat) = (v.accept(), v.material());
     let status = if sg == 0 && og == 0 && uncertain.is_empty() { "insufficient" }
         else if s >= acc && o < mat { "accepted" }
@@ -410,6 +411,7 @@ fn row_json(la: &LA, id: u64) -> Value {
         json!(la.from.map(|f| T[f]).unwrap_or("")),
         json!(la.until.map(|u| T[u]).unwrap_or("")),
         json!(la.mode),
+        // no asserted_by: the stored key is the endpoint key of JSON null, one shared non-empty constant
         json!(la.actor.map(|a| format!("actor{a}")).unwrap_or("lit:null".to_string())),
         json!(la.evid.iter().map(|e| format!("E{e}")).collect::<Vec<_>>()),
         json!(la.stance),
@@ -539,27 +541,82 @@ pub fn main(args: &[String]) {
     let n_scen = arg_value(args, "--scenarios").and_then(|s| s.parse().ok()).unwrap_or(12usize);
     let n_orders = arg_value(args, "--orders").and_then(|s| s.parse().ok()).unwrap_or(3usize);
     let rt = tokio::runtime::Builder::new_multi_thread().worker_threads(2).enable_all().build().unwrap();
-    rt.block_on(run(out_path, n_scen, n_orders));
+    let all_perms = arg_value(args, "--all-perms").and_then(|s| s.parse().ok()).unwrap_or(2usize);
+    rt.block_on(run(out_path, n_scen, n_orders, all_perms));
 }
 
-async fn run(out_path: String, n_scen: usize, n_orders: usize) {
+/// Hand-written scenarios that always run first.
+fn fixed_scenarios(feats: &Features) -> Vec<Scenario> {
+    let la = |actor: Option<usize>, evid: Vec<usize>, stance: &'static str, conf: f64| LA {
+        prop: 0, actor, evid, stance, mode: "stated".to_string(), conf: Some(conf), from: None, until: None, fate: Fate::Active };
+    let mut v = vec![];
+    if feats.anonymous {
+        // two unattributed claims: the engine stores one shared (null) actor key, so they are one group
+        v.push(Scenario { functional: true, las: vec![la(None, vec![], "support", 0.6), la(None, vec![], "support", 0.6)] });
+        // unattributed claims with and without shared evidence next to a named actor
+        v.push(Scenario { functional: true, las: vec![la(None, vec![0], "support", 0.6), la(None, vec![0], "support", 0.5),
+                                                      la(None, vec![1], "reject", 0.4), la(Some(0), vec![], "reject", 0.3),
+                                                      la(None, vec![], "reject", 0.2)] });
+    }
+    // the worked bridge: two groups that a third assertion joins
+    v.push(Scenario { functional: true, las: vec![la(Some(0), vec![0], "support", 0.5), la(Some(1), vec![1], "support", 0.7),
+                                                  la(Some(2), vec![0, 1], "support", 0.6)] });
+    v
+}
+
+fn all_orders(n: usize) -> Vec<Vec<usize>> {
+    fn rec(cur: &mut Vec<usize>, used: &mut Vec<bool>, n: usize, out: &mut Vec<Vec<usize>>) {
+        if cur.len() == n { out.push(cur.clone()); return; }
+        for i in 0..n { if !used[i] { used[i] = true; cur.push(i); rec(cur, used, n, out); cur.pop(); used[i] = false; } }
+    }
+    let mut out = vec![];
+    rec(&mut vec![], &mut vec![false; n], n, &mut out);
+    out
+}
+
+/// Cuts a scenario down to at most `n` assertions, keeping supersession targets in range.
+fn shrink(mut sc: Scenario, n: usize) -> Scenario {
+    sc.las.truncate(n.max(2));
+    let len = sc.las.len();
+    for i in 0..len {
+        if let Fate::SupersededBy(j) = sc.las[i].fate {
+            if j >= len || sc.las[j].prop != sc.las[i].prop { sc.las[i].fate = Fate::Active; }
+        }
+    }
+    sc
+}
+
+async fn run(out_path: String, n_scen: usize, n_orders: usize, all_perms: usize) {
     let mut rng = Rng::from_env();
     let mut out = std::io::BufWriter::new(std::fs::File::create(&out_path).unwrap());
     std::panic::set_hook(Box::new(|_| {}));
     let feats = probe().await;
     let mut failures: Vec<Value> = vec![];
     let (mut projections, mut nexuses, mut with_rivals, mut bridging, mut id_ordered) = (0u64, 0u64, 0u64, 0u64, 0u64);
+    let (mut exhaustive_scenarios, mut exhaustive_orders, mut unattributed_pairs) = (0u64, 0u64, 0u64);
     let mut statuses: BTreeMap<String, u64> = BTreeMap::new();
     let mut reasons: BTreeMap<String, u64> = BTreeMap::new();
     let mut policies: BTreeMap<String, u64> = BTreeMap::new();
 
-    for k in 0..n_scen {
-        let sc = gen_scenario(&mut rng, &feats, k);
+    let fixed = fixed_scenarios(&feats);
+    for k in 0..n_scen + fixed.len() {
+        // the first `all_perms` generated scenarios have 3..5 assertions and are recorded in every order
+        let exhaustive = k >= fixed.len() && k - fixed.len() < all_perms;
+        let sc = if k < fixed.len() { fixed[k].clone() } else {
+            let mut sc = gen_scenario(&mut rng, &feats, k - fixed.len());
+            if exhaustive { sc = shrink(sc, [4, 5, 3][(k - fixed.len()) % 3]); }
+            sc
+        };
         let vs = variants(&mut rng);
         let n = sc.las.len();
-        let mut orders: Vec<Vec<usize>> = vec![(0..n).collect(), (0..n).rev().collect()];
-        while orders.len() < n_orders { let mut p: Vec<usize> = (0..n).collect(); rng.shuffle(&mut p); orders.push(p); }
-        orders.truncate(n_orders.max(1));
+        let mut orders: Vec<Vec<usize>> = if exhaustive { all_orders(n) } else {
+            let mut o = vec![(0..n).collect::<Vec<usize>>(), (0..n).rev().collect()];
+            while o.len() < n_orders { let mut p: Vec<usize> = (0..n).collect(); rng.shuffle(&mut p); o.push(p); }
+            o.truncate(n_orders.max(1));
+            o
+        };
+        if exhaustive { exhaustive_scenarios += 1; exhaustive_orders += orders.len() as u64; }
+        orders.dedup();
         let mut first: Vec<Option<(Answer, Vec<usize>)>> = vec![None; vs.len()];
         for (oi, order) in orders.iter().enumerate() {
             let built = match build(&sc, order, &format!("s{k}o{oi}")).await {
@@ -579,6 +636,8 @@ async fn run(out_path: String, n_scen: usize, n_orders: usize) {
                 *policies.entry(a.policy_id.clone()).or_default() += 1;
                 for (_, r) in &a.excluded { *reasons.entry(r.clone()).or_default() += 1; }
                 if a.opposing.iter().any(|&i| sc.las[i].prop > 0) { with_rivals += 1; }
+                if a.supporting.iter().filter(|&&i| sc.las[i].actor.is_none()).count() >= 2
+                    || a.opposing.iter().filter(|&&i| sc.las[i].actor.is_none()).count() >= 2 { unattributed_pairs += 1; }
                 if (a.supporting.len() >= 3 && a.sg < a.supporting.len()) || (a.opposing.len() >= 3 && a.og < a.opposing.len()) { bridging += 1; }
                 let by_id = |v: &Vec<usize>| v.windows(2).all(|w| built.ids[w[0]] < built.ids[w[1]]);
                 if by_id(&a.supporting) && by_id(&a.uncertain) { id_ordered += 1; }
@@ -589,8 +648,10 @@ async fn run(out_path: String, n_scen: usize, n_orders: usize) {
                     let field = ["status", "support_groups", "opposition_groups", "support_bits", "opposition_bits",
                                  "supporting", "opposing", "uncertain", "excluded"]
                         .iter().find(|f| want[**f] != got[**f]).cloned().unwrap_or("?");
-                    failures.push(json!({"what": format!("e2e answer differs from independent oracle: {field}"),
+                    let what = format!("e2e answer differs from independent oracle: {field}");
+                    failures.push(json!({"what": what,
                         "scenario": scenario_json(&sc), "order": order, "query": v.suffix(),
+                        "kml": order.iter().map(|&i| create_command(&sc.las[i], &["E-1".into(), "E-2".into(), "E-3".into()])).collect::<Vec<_>>(),
                         "engine": got, "oracle": want, "valid_at": a.valid_at}));
                 }
                 // structural readings of the property on the answer itself
@@ -618,7 +679,9 @@ async fn run(out_path: String, n_scen: usize, n_orders: usize) {
             }
         }
     }
-    writeln!(out, "{}", json!({"kind": "summary", "scenarios": n_scen, "nexus_instances": nexuses,
+    writeln!(out, "{}", json!({"kind": "summary", "scenarios": n_scen + fixed.len(), "nexus_instances": nexuses,
+        "all_permutation_scenarios": exhaustive_scenarios, "all_permutation_orders": exhaustive_orders,
+        "two_unattributed_on_one_side": unattributed_pairs,
         "projections": projections, "evaluations": projections, "statuses": statuses, "excluded_reasons": reasons,
         "policies": policies, "with_rivals": with_rivals, "bridging": bridging, "ledgers_in_id_order": id_ordered,
         "features": {"anonymous_assertion": feats.anonymous, "unknown_mode_string": feats.unknown_mode},
